@@ -125,6 +125,12 @@ def colliding_names(E, cfg):
         A, B = B, A
     a0, b0 = A.ref_unit, B.ref_unit
     ka = A.new_unit('cka', None, 1000 * a0)
+    # before the quotient type exists: the operation is undefined and a term-defined unit is rejected ...
+    from quantity import UndefinedResultError
+    C.expect_raises(E, lambda: Quantity(1, ka) / Quantity(2, b0), UndefinedResultError, 'quotient-undefined-before-declaration')
+    C.expect_raises(E, lambda: a0 / b0, UndefinedResultError, 'unit-quotient-undefined-before-declaration')
+    C.expect_raises(E, lambda: A.new_unit('cbad', None, Term(((ka, 1), (b0, -1)))), ValueError, 'term-of-undeclared-dimension-rejected')
+    # ... and all of it works once the type is declared
     AB = C.mk_cls('CQuot', define_as=A / B)
     E.check(AB.ref_unit is not None and C.scale(AB.ref_unit) == 1, 'derived-reference-unit', key='colliding:ref-unit')
     C.expect_raises(E, lambda: C.mk_cls('CQuot2', define_as=B ** -1 * A, ref_unit_symbol='cq2'), ValueError,
